@@ -79,6 +79,8 @@ class Builder:
             lon = (c % 50) + [0.5, 0.0, 0.25, 0.9][k % 4]
             lat = (c // 50) + [0.5, 0.0, 0.75, 0.1][k % 4]
             mag = 4.0 + b + [0.5, 0.0, 0.99][k % 3]
+            if b == nb - 1 and k % 4 == 3:
+                mag += 2.6          # (the top bin is open-ended: an event far above its lower edge belongs to it)
             data.append(('e%d' % k, 1000 * k, lat, lon, 5.0, mag))
         mags = self.numpy.array([4.0 + b for b in range(nb)])
         reg = self.region(nc)
